@@ -256,11 +256,19 @@ impl Cfg {
     /// know their ranges. This function will take a register and return the ranges
     /// that need to be annotated. If it cannot find any, then it will return the original
     /// node's range.
+    /// Neighbours in source order, so that searches do not depend on the
+    /// iteration order of the hash sets.
+    fn in_source_order(nodes: &HashSet<Rc<CfgNode>>) -> Vec<Rc<CfgNode>> {
+        let mut nodes = nodes.iter().cloned().collect::<Vec<_>>();
+        nodes.sort_by_key(|n| (n.file(), n.range()));
+        nodes
+    }
+
     pub fn error_ranges_for_first_store(node: &Rc<CfgNode>, item: Register) -> Vec<RegisterToken> {
         let mut queue = VecDeque::new();
         let mut ranges = Vec::new();
         // push the previous nodes onto the queue
-        queue.extend(node.prevs().clone());
+        queue.extend(Self::in_source_order(&node.prevs()));
 
         // keep track of visited nodes
         #[allow(clippy::mutable_key_type)]
@@ -281,7 +289,7 @@ impl Cfg {
                     continue;
                 }
             }
-            queue.extend(prev.prevs().clone().into_iter());
+            queue.extend(Self::in_source_order(&prev.prevs()));
         }
         ranges
     }
@@ -293,7 +301,7 @@ impl Cfg {
         let mut ranges = Vec::new();
         // push the next nodes onto the queue
 
-        queue.extend(node.nexts().clone());
+        queue.extend(Self::in_source_order(&node.nexts()));
 
         // keep track of visited nodes
         #[allow(clippy::mutable_key_type)]
@@ -325,7 +333,7 @@ impl Cfg {
                 break;
             }
 
-            queue.extend(next.nexts().clone().into_iter());
+            queue.extend(Self::in_source_order(&next.nexts()));
         }
         ranges
     }
